@@ -56,6 +56,7 @@ type DAGResult struct {
 	Dynamic   []string        // calls through function values (positions)
 	GoDefer   []string        // go / defer statements (positions)
 	Loops     []string        // functions with a CFG back edge
+	LoopFns   []*ssa.Function // the same, as functions (parallel to Loops)
 	Cycles    []string        // call-graph cycles
 }
 
@@ -94,6 +95,7 @@ func DAG(p *load.Program, root *ssa.Function) *DAGResult {
 				pos = p.Pos(b.Instrs[n-1].Pos())
 			}
 			res.Loops = append(res.Loops, fmt.Sprintf("%s (back edge at %s)", fn, pos))
+			res.LoopFns = append(res.LoopFns, fn)
 		}
 		for _, b := range fn.Blocks {
 			for _, in := range b.Instrs {
